@@ -301,6 +301,18 @@ func c09(p *Pkg, _ *Pkg, payload json.RawMessage, res *Result) {
 						Options: &openapi3filter.Options{AuthenticationFunc: func(context.Context, *openapi3filter.AuthenticationInput) error { return nil }}})
 				})
 				res.Count("kin-validated", 1)
+				// kin-openapi's own router matches templates against the escaped path and does not find a template
+				// with non-ASCII literal segments: its limitation, the parameter texts are still judged by the lexer
+				nonASCII := false
+				for i := 0; i < len(pl.Template); i++ {
+					if pl.Template[i] >= 0x80 {
+						nonASCII = true
+					}
+				}
+				if verr != nil && nonASCII && strings.HasPrefix(verr.Error(), "FindRoute:") {
+					res.Count("kin-route-not-found-non-ascii-template", 1)
+					verr = nil
+				}
 				if pn == "" && verr != nil && !kinReqQuirk(verr) {
 					bad("wire-invalid", "kin-openapi "+errClass(verr), verr.Error()+" for "+wire, "request validates under kin-openapi's request validator")
 				}
